@@ -60,6 +60,7 @@ type Runner struct {
 	Lookups, Hits, MustHits                                                                                    int
 	DirectBlockWrites                                                                                          int
 	DeepWalks                                                                                                  int             // lookups whose answer lies 20 or more links behind the queried block
+	VeryDeepWalks                                                                                              int             // ... 100 or more links
 	lookedAt                                                                                                   map[string]bool // key@block looked up at state level
 	removedKeys                                                                                                map[string]bool
 }
@@ -168,11 +169,17 @@ func (r *Runner) stateTruth(key, hash string) (Entry, bool, bool) {
 		if found && depth >= 20 {
 			r.DeepWalks++
 		}
+		if found && depth >= 100 {
+			r.VeryDeepWalks++
+		}
 		return e, found, found && !r.removedKeys[key]
 	}
 	e, found, depth := r.Tree.Truth(key, hash)
 	if found && depth >= 20 && r.committed[hash] {
 		r.DeepWalks++
+	}
+	if found && depth >= 100 && r.committed[hash] {
+		r.VeryDeepWalks++
 	}
 	return e, found, false
 }
@@ -282,6 +289,9 @@ func (r *Runner) Run(nsteps int) {
 			r.removedKeys[key] = true
 			r.logf("StateCache.Remove(%s)", key)
 		default:
+			if len(t.Blocks) > 100 && gen.Chance(r.RT, 90, "holdlookups") {
+				continue // very long quiet chains: hardly any lookup before everything is committed, so no remembered answers shorten the walks
+			}
 			r.lookup(running)
 		}
 	}
@@ -300,7 +310,9 @@ func (r *Runner) Run(nsteps int) {
 				r.txnStep(lb)
 			}
 			progress = true
-			r.lookup(nil)
+			if len(t.Blocks) <= 100 {
+				r.lookup(nil)
+			}
 		}
 	}
 	for i := 0; i < 2*len(t.Blocks); i++ {
